@@ -116,7 +116,7 @@ def generate(tier, rng):
   # item 3: magnitude sweep, jointly for the data scale (2**e) and the client learning rate (2**-2e keeps the dynamics),
   # and tiny / huge learning rates on their own
   for e in (-20, -10, 10, 20):
-    yield dict(_case(rng, SGD(0.125 * 2.0 ** (-2 * e)), SGD(1.0), _hp(HPS[0], 4), [4, 0, 6, 3], 2, 'jit', False), scale=e)
+    yield dict(_case(rng, SGD(0.125 * 2.0 ** (-2 * e)), SGD(1.0), _hp(HPS[0], 4), [4, 0, 6, 3], 2, 'jit', False), scale=e, xdtype='float32')   # 2**20 overflows float16
   yield _case(rng, SGD(2.0 ** -100), SGD(2.0 ** 60), _hp(HPS[0], 4), [4, 6], 2, 'jit', False)
   yield _case(rng, SGD(2.0 ** -20), SGD(2.0 ** -30, 0.5), _hp(HPS[0], 4), [4, 6], 2, 'jit', True)
   # item 4: a non-finite value on a REAL example
@@ -397,6 +397,8 @@ def encode(case, obs):
   for o in obs['rounds']:
     if len(o['calls']) != 1:
       return None
+    if not (fs.finite(o['params']) and fs.finite(o['trace']) and fs.finite(o['calls'][0]['grads']) and fs.finite([v for _, v in o['diag']])):
+      return None     # non-finite observations are the oracle's business (keys non-finite / non-finite-hidden)
     diag = fw.clist([f'({_zid(k[1:])}, {fw.qlit(v)})' for k, v in o['diag']])
     ors.append(f'(mkR01 {fw.qlist(o["params"])} {fw.qlist(o["trace"])} {fw.qlist(o["calls"][0]["grads"])} {diag})')
   return f'({cterm}, {fw.clist(ors)})'
